@@ -235,6 +235,8 @@ func (n *NNode) Depth(d int, maxDepthCap int) (int, error) {
 			continue
 		}
 		if curDepth, err := l.InNode.Depth(d+1, maxDepthCap); err != nil {
+			// restore the traversal mark so that an aborted search leaves nothing behind
+			n.visited = false
 			return curDepth, err
 		} else if curDepth > max {
 			max = curDepth
